@@ -226,8 +226,14 @@ def targeted(rng, name):
         r = rng.random()
         nb = rng.choice([1, 2, 7, 8, 9, 15, 16, 17, 31, 32, 33, 56, 57, 63, 64]) if r < 0.6 else rng.randint(1, 64)
         bi = rng.randint(0, 7)
-        need = (bi + nb + 7) // 8
-        bo = rng.choice([0, max(0, n - need), max(0, n - need + 1), rng.randint(0, max(0, n))])
+        if n > 0 and rng.random() < 0.8:
+            # a window that fits: shrink num_bits if necessary, then place it (often flush with the end)
+            nb = max(1, min(nb, 8 * n - bi))
+            need = (bi + nb + 7) // 8
+            bo = rng.choice([0, n - need, rng.randint(0, n - need), rng.randint(0, n - need)])
+        else:
+            need = (bi + nb + 7) // 8
+            bo = rng.choice([0, max(0, n - need), max(0, n - need + 1), rng.randint(0, max(0, n))])
         r2 = rng.random()
         if r2 < 0.06:
             nb = rng.choice([0, 65, -1, 2**63, 2**64, 128])
